@@ -21,6 +21,7 @@ import (
 	"os"
 	"os/exec"
 	"path/filepath"
+	"regexp"
 	"sort"
 	"strings"
 	"time"
@@ -29,6 +30,8 @@ import (
 )
 
 const baseModName = "example.com/cm"
+
+var convRe = regexp.MustCompile(`[A-Za-z0-9_]+__to__[A-Za-z0-9_]+`)
 
 func goEnv() []string {
 	return append(os.Environ(), "GOFLAGS=-mod=mod", "GOPROXY=off", "GOSUMDB=off", "GOTOOLCHAIN=local")
@@ -58,6 +61,14 @@ var pkgSrc = map[string]map[string]string{
 	},
 	"broken": {
 		"e.go": "package broken\n\nfunc Wrong() uint64 {\n\treturn \"not a number\"\n}\n",
+	},
+	// every file is excluded under the goose tag: the toolchain matches the package and cannot load it
+	"excluded": {
+		"x.go": "//go:build !goose\n\npackage excluded\n\nfunc Hidden() uint64 {\n\treturn 1\n}\n",
+	},
+	// two functions convert the same struct to the same interface; the first of them is not translatable
+	"conv": {
+		"c.go": "package conv\n\ntype Shape interface {\n\tArea() uint64\n}\n\ntype Sq struct {\n\ts uint64\n}\n\nfunc (q Sq) Area() uint64 {\n\treturn q.s * q.s\n}\n\nfunc measure(x Shape) uint64 {\n\treturn x.Area()\n}\n\nfunc First(q Sq) uint64 {\n\tswitch q.s {\n\tcase 1:\n\t\treturn 2\n\t}\n\treturn measure(q)\n}\n\nfunc Second(q Sq) uint64 {\n\treturn measure(q)\n}\n",
 	},
 }
 
@@ -117,13 +128,16 @@ func main() {
 		ignore := r.Bool()
 		// which packages exist in this module
 		present := []string{"good1"}
-		for _, p := range []string{"sub/good2", "my-pkg", "bad"} {
+		for _, p := range []string{"sub/good2", "my-pkg", "bad", "conv"} {
 			if r.Intn(3) != 0 {
 				present = append(present, p)
 			}
 		}
 		if !ignore && r.Intn(4) == 0 {
 			present = append(present, "broken") // a load error is not a conversion error: only without -ignore-errors
+		}
+		if !ignore && r.Intn(3) == 0 {
+			present = append(present, "excluded") // matched only by a pattern that names it (./... leaves it out, like the toolchain)
 		}
 		rootPkg := r.Intn(3) == 0
 		if rootPkg { // a package in the module's root directory
@@ -161,6 +175,12 @@ func main() {
 				if p == "sub/good2" {
 					patterns = []string{"./sub/...", "./good1"}
 				}
+			}
+		}
+		for _, p := range present {
+			if (p == "excluded" || p == "broken") && r.Intn(2) == 0 {
+				// a package that cannot be loaded next to one that translates
+				patterns = []string{"./good1", "./" + p}
 			}
 		}
 		// the directory the packages are loaded from: the module root, or (like the toolchain,
@@ -219,7 +239,7 @@ func main() {
 			for _, v := range files {
 				content = v
 			}
-			if rel == "broken" {
+			if rel == "broken" || rel == "excluded" {
 				content = ""
 			}
 			refContents[m] = content
@@ -292,6 +312,15 @@ func main() {
 				rewritten = 1
 			}
 			fmt.Fprintf(w, "W %s %s %d\n", hx(k), hx(after[k]), rewritten)
+		}
+		// a written file defines every struct-to-interface conversion it uses
+		for k, v := range after {
+			for _, id := range convRe.FindAllString(v, -1) {
+				if !strings.Contains(v, "Definition "+id+":") && !strings.Contains(v, "Definition "+id+" ") {
+					fmt.Fprintf(w, "G BAD %s uses the conversion %s without defining it\n", k, id)
+					break
+				}
+			}
 		}
 		// build tags: the translation of good1 contains OnlyGoose and not NotGoose
 		for k, v := range after {
